@@ -70,11 +70,46 @@ func init() {
 	)
 }
 
+// two anonymous struct types (same package path, same - empty - name) with
+// the same field names in a different order, and two function-local types
+// that are both called Event
+func c07Anon1() interface{} {
+	return struct {
+		A, B, C int
+		S       string
+		Items   []int
+	}{A: 3, B: 1, C: 2, S: "hall", Items: []int{1, 2}}
+}
+func c07Anon2() interface{} {
+	return struct {
+		S     string
+		Items []int
+		C, B  int
+		A     int
+	}{S: "ab", Items: []int{3}, C: 5, B: 2, A: 1}
+}
+func c07Local1() interface{} {
+	type Event struct {
+		A, B int
+		S    string
+	}
+	return Event{A: 2, B: 1, S: "héllo"}
+}
+func c07Local2() interface{} {
+	type Event struct {
+		S    string
+		B, A int
+		C    int
+	}
+	return &Event{S: "hall", B: 0, A: 4, C: 1}
+}
+
 var c07Objs = []interface{}{
 	nil,
 	Obj{A: 2, B: 1, C: 5, S: "hall", Items: []int{3, 1, 2}},
 	&Obj{A: 1, B: 0, C: 0, S: "", Items: []int{1}},
 	map[string]interface{}{"A": 3, "B": 2, "C": -1, "S": "héllo", "Items": []interface{}{1, 2, 3, 4, 5}},
+	c07Anon1(), c07Anon2(), c07Local1(), c07Local2(),
 }
 
 // Draw layout, mode 1 (crash-point enumeration):
